@@ -76,7 +76,7 @@ static const std::vector<const char*> WTOT = {"WOPT", "WWPT", "WGPT", "WVPT", "W
 static const std::vector<const char*> GTOT = {"GOPT", "GWPT", "GGPT", "GVPT", "GWIT", "GGIT"};
 static const std::vector<const char*> FTOT = {"FOPT", "FWPT", "FGPT", "FVPT", "FWIT", "FGIT"};
 
-static json project(const RestartValue& rv, const SummaryState& st, const Action::State& acts, const UDQState& udq, const Schedule& sched, std::size_t step, const UnitSystem& us) {
+static json project(const RestartValue& rv, const SummaryState& st, const Action::State& acts, const UDQState& udq, const WellTestState& wtest, const Schedule& sched, std::size_t step, const UnitSystem& us) {
     json o = json::object();
     json sol = json::object();
     for (const char* k : {"PRESSURE", "SWAT", "SGAS", "RS"}) {
@@ -139,6 +139,12 @@ static json project(const RestartValue& rv, const SummaryState& st, const Action
         else if (key[0] == 'F') ju[key] = udq.has(key) ? asint(udq.get(key) * 100) : -1;
     }
     o["udq"] = ju;
+    json jt = json::object();      // wells closed by the simulator and waiting for a WTEST test, with the reason they were closed for
+    for (const auto& w : sched.wellNames(step)) {
+        const auto r = wtest.restart_well(sched[step].wtest_config(), w);
+        if (r.has_value()) jt[w] = {wtest.well_is_closed(w), r->close_reason};
+    }
+    o["wtest"] = jt;
     return o;
 }
 
@@ -211,6 +217,13 @@ static Dyn make_state(const EclipseState& es, const Schedule& sched, std::size_t
         sched[k].udq().eval(k, sched.wellMatcher(k), segFactory, regFactory, st, udq);
         d.st = st;
         d.udq = udq;
+    }
+    for (const auto& wname : sched.wellNames(step)) {
+        if (!sched[step].wtest_config().has(wname)) continue;
+        std::vector<WellTestConfig::Reason> rs;
+        for (const auto r : {WellTestConfig::Reason::PHYSICAL, WellTestConfig::Reason::ECONOMIC, WellTestConfig::Reason::GROUP})
+            if (sched[step].wtest_config().has(wname, r)) rs.push_back(r);
+        if (!rs.empty() && rng.below(2) == 0) d.wtest.close_well(wname, rs[rng.below(rs.size())], sched.seconds(step));
     }
     for (const auto& a : sched[step].actions()) {
         const int runs = rng.below(3);
@@ -287,6 +300,14 @@ static json rst_project(const Schedule& sched, std::size_t step) {
         try { wl[wname] = sched[step].wlist_manager().getWListNames(wname); } catch (const std::exception&) { wl[wname] = json::array(); }
     }
     o["wlists"] = wl;
+    json wt = json::object();
+    for (const auto& wname : sched.wellNames(step)) {
+        const auto& cfg = sched[step].wtest_config();
+        if (!cfg.has(wname)) continue;
+        const auto& c = cfg.get(wname);
+        wt[wname] = {g6(c.test_interval), c.num_test, g6(c.startup_time), c.ecl_reasons()};
+    }
+    o["wtest"] = wt;
     return o;
 }
 
@@ -320,7 +341,7 @@ int main(int argc, char** argv) {
             UDQState udq(es.runspec().udqParams().undefinedValue());
             for (int step = 1; step <= nsteps; ++step) {
                 auto d = make_state(es, sched, step, rng, smry, st, udq);
-                const json proj = project(d.rv, d.st, d.acts, d.udq, sched, step, us);
+                const json proj = project(d.rv, d.st, d.acts, d.udq, d.wtest, sched, step, us);
                 {
                     OS::Restart rstFile{rset, step, OS::Formatted{fmt}, OS::Unified{unif}};
                     auto aq = std::optional<RestartIO::Helpers::AggregateAquiferData>{};
@@ -338,6 +359,7 @@ int main(int argc, char** argv) {
                     const auto fname = unif ? OS::outputFileName(rset, fmt ? "FUNRST" : "UNRST")
                                             : OS::outputFileName(rset, (fmt ? "F" : "X") + [&] { char b[8]; std::snprintf(b, sizeof b, "%04d", m); return std::string(b); }());
                     Action::State acts2;
+                    WellTestState wtest2;
                     UDQState udq2(es.runspec().udqParams().undefinedValue());
                     SummaryState st2(TimeService::from_time_t(sched.getStartTime()), 0.0);
                     const auto rv2 = RestartIO::load(fname, m, acts2, st2, keys, es, grid, sched);
@@ -347,8 +369,9 @@ int main(int argc, char** argv) {
                         const auto rst = RestartIO::RstState::load(std::move(view), es.runspec(), parser);
                         acts2.load_rst(sched[m].actions(), rst);
                         udq2.load_rst(rst);
+                        wtest2 = WellTestState(sched.getStartTime(), rst);
                     }
-                    ev["state"] = project(rv2, st2, acts2, udq2, sched, m, us);
+                    ev["state"] = project(rv2, st2, acts2, udq2, wtest2, sched, m, us);
                     ev["res"] = "ok";
                 } catch (const std::exception& e) { ev["res"] = "error"; ev["what"] = std::string(e.what()).substr(0, 300); }
                 tr.emit(ev);
@@ -377,7 +400,7 @@ int main(int argc, char** argv) {
                     json diffs = json::array();
                     for (std::size_t s = nsteps; s < std::min(sched.size(), sched2.size()); ++s) {
                         const auto p1 = rst_project(sched, s), p2 = rst_project(sched2, s);
-                        for (const char* key : {"wells", "groups", "actions", "udq", "wlists"})
+                        for (const char* key : {"wells", "groups", "actions", "udq", "wlists", "wtest"})
                             if (p1[key] != p2[key]) diffs.push_back({s, key, json::diff(p1[key], p2[key]).dump().substr(0, 300)});
                     }
                     ev["same"] = diffs.empty();
